@@ -84,11 +84,22 @@ RES_RE = re.compile(r'^\[(?P<id>[^\]]+)\] (?:line (?P<line>\d+) )?(?P<desc>.*): 
 TAG_RE = re.compile(r'^(C\d\d)[.:]')
 
 
+def _pdeathsig():
+    # children must not outlive the driver (e.g. when the driver is killed by an outer timeout)
+    try:
+        import ctypes
+        ctypes.CDLL('libc.so.6', use_errno=True).prctl(1, 9)  # PR_SET_PDEATHSIG, SIGKILL
+    except Exception:
+        pass
+
+
 def _limit(mem_gb):
     def f():
-        b = int(mem_gb * (1 << 30))
-        resource.setrlimit(resource.RLIMIT_AS, (b, b))
+        if mem_gb:
+            b = int(mem_gb * (1 << 30))
+            resource.setrlimit(resource.RLIMIT_AS, (b, b))
         os.setsid()
+        _pdeathsig()
     return f
 
 
@@ -97,7 +108,7 @@ def run(cmd, timeout, mem_gb=None, cwd=None, env=None):
     t0 = time.time()
     try:
         p = subprocess.Popen(cmd, stdout=subprocess.PIPE, stderr=subprocess.PIPE,
-                             cwd=cwd, env=env, preexec_fn=_limit(mem_gb) if mem_gb else os.setsid)
+                             cwd=cwd, env=env, preexec_fn=_limit(mem_gb))
     except OSError as e:
         return (127, '', str(e), 0.0, 0, False)
     to = False
